@@ -1892,7 +1892,8 @@ pub fn specs(thorough: bool, edge: bool) -> Vec<Spec> {
             for t1 in 1..=STRIP {
                 for t2 in t1 + 1..=STRIP {
                     for c1 in 0..CONTENTS.len() {
-                        for c2 in 0..CONTENTS.len() {
+                        // unordered content pairs (the same two contents in the other order add little)
+                        for c2 in c1..CONTENTS.len() {
                             v.push(Spec {
                                 axis,
                                 variant: 0,
